@@ -106,6 +106,13 @@ def scenario(draw):
         events.append({'at': draw(st.sampled_from([0.5, 3.0, 20.0, 100.0, 333.3])), 'mod': draw(st.integers(0, len(mods) - 1)),
                        'kind': draw(st.sampled_from(['interval', 'interval', 'fast-on', 'fast-off', 'trigger'])),
                        'value': draw(st.sampled_from([0.1, 0.5, 2.0, 10.0, 60.0]))})
+    if draw(st.integers(0, 4)) == 0:
+        # the interval is changed while fast polling is on, then fast polling is switched off: the new interval applies
+        mi = draw(st.integers(0, len(mods) - 1))
+        t1 = draw(st.sampled_from([0.5, 3.0, 20.0]))
+        events = [{'at': t1, 'mod': mi, 'kind': 'fast-on', 'value': 0.25},
+                  {'at': t1 + draw(st.sampled_from([1.0, 5.0])), 'mod': mi, 'kind': 'interval', 'value': draw(st.sampled_from([0.5, 2.0, 10.0]))},
+                  {'at': t1 + draw(st.sampled_from([7.0, 30.0])), 'mod': mi, 'kind': 'fast-off', 'value': 0.25}]
     return {'kind': 'scenario', 'mods': mods, 'events': sorted(events, key=lambda e: e['at']),
             't0': draw(st.sampled_from([1_000_000.0, 1_000_000.37, 1_700_000_000.123]))}
 
